@@ -2,7 +2,7 @@
     lemmas, and with it the struct-level round trip [rt_all] for the whole model. *)
 From Coq Require Import ZArith List Bool String Lia PeanoNat.
 From KV Require Import Base BaseProofs Wire WireProofs Cursor CursorProofs Schema SchemaSem SchemaSemEq FaithfulProofs
-  Roundtrip RoundtripEq RoundtripProofs RtCustomLib RtRequestItem.
+  Roundtrip RoundtripEq RoundtripProofs RtCustomLib RtRequestItem RtResponseItem RtAttribute.
 Import ListNotations.
 Open Scope Z_scope.
 
@@ -18,6 +18,10 @@ Section All.
     unfold conf_custom_of in Hc. cbv zeta in Hc.
     destruct (String.eqb (t_name d) "kmip.RequestBatchItem") eqn:E1.
     { apply String.eqb_eq in E1. exact (rt_request_item S OPS ATTRS OBJS F f HQ fc st d tag fs items st' sc Ed Hcd E1 He Hc). }
+    destruct (String.eqb (t_name d) "kmip.ResponseBatchItem") eqn:E2.
+    { apply String.eqb_eq in E2. exact (rt_response_item S OPS ATTRS OBJS F f HQ fc st d tag fs items st' sc Ed Hcd E2 He Hc). }
+    destruct (String.eqb (t_name d) "kmip.Attribute") eqn:E3.
+    { apply String.eqb_eq in E3. exact (rt_attribute S OPS ATTRS OBJS F f HQ fc st d tag fs items st' sc Ed Hcd E3 He Hc). }
     discriminate.
   Qed.
 
